@@ -421,6 +421,12 @@ def cases():
     for dk, sw, wl in (("lookback", False, False), ("lookback", True, True), ("european", True, False)):
         cs.append(Case("resimulate/%s/step=%s/listed=%s" % (dk, sw, wl), resimulate_case(dk, sw, wl), encodes=enc,
                        bounds="N=2 T=3; two simulations of the same shape on the same objects vs fresh objects", timeout=60))
+    for dk in ("american_binary", "european_binary"):
+        for sw in (False, True):
+            cs.append(Case("resimulate/%s/step=%s/listed=True" % (dk, sw), resimulate_case(dk, sw, True), tier="thorough", encodes=enc,
+                           bounds="N=2 T=3; same-shape re-simulation vs fresh objects", timeout=120))
+    cs.append(Case("resimulate/lookback/step=True/listed=True/heston", resimulate_case("lookback", True, True, heston=True), tier="thorough", encodes=enc,
+                   bounds="N=2 T=3 spot+variance buffers", timeout=120))
     cs.append(Case("resimulate/lookback/step=False/listed=False/heston", resimulate_case("lookback", False, False, heston=True), encodes=enc,
                    bounds="N=2 T=3 spot+variance buffers", timeout=60))
     for sq in (("priceA",), ("lossA", "hedgeB"), ("fitA",), ("priceA", "fitA"), ("loss2A", "plA")):
